@@ -5,7 +5,7 @@
 From Coq Require Import List String Ascii Bool Permutation Lia.
 Import ListNotations.
 From DI Require Import Syntax Tokens Bounds Param Subs Superset Substitute Spec RustSem Group Search Gen GenMain Validate IMap Hygiene Dispatch Examples ExamplesGroup ExamplesF16.
-From DI.proofs Require Import Basics SupersetSound SupersetExact SupersetComplete SupersetWf SubstituteProofs SubstituteSpec BoundsProofs DispatchProofs GroupProofs SearchProofs SearchFlat SearchNested SearchRows FlatSemantics FlatConcrete GenProofs GenMainProofs GenMainArgs GenMainKeys ParamProofs ParamNames ParamAlpha ParamCanon ParamOrder ParamIdem RustSemProofs ValidateProofs IMapProofs HygieneProofs.
+From DI.proofs Require Import Basics SupersetSound SupersetExact SupersetComplete SupersetWf SubstituteProofs SubstituteSpec SubstituteNoDup BoundsProofs DispatchProofs GroupProofs SearchProofs SearchFlat SearchNested SearchRows FlatSemantics FlatConcrete GenProofs GenMainProofs GenMainArgs GenMainKeys ParamProofs ParamNames ParamAlpha ParamCanon ParamOrder ParamIdem RustSemProofs ValidateProofs IMapProofs HygieneProofs.
 
 (* ===================================================================================== *)
 (* C09 -- header generalisation is exact first-order matching                             *)
@@ -160,6 +160,22 @@ Proof.
   - exact (subst_key_identity s b t Hid).
 Qed.
 Print Assumptions C10_same_header_unchanged.
+
+(* "exactly one re-expression per way of choosing": no re-expression is listed twice, for
+   every substitution with one entry per parameter and every bound (together with
+   C10_exact_enumeration: the results are in bijection with the choices) *)
+Theorem C10_no_duplicate_reexpression : forall s bounded trait_,
+  NoDup (map fst s) -> NoDup (subst_key s bounded trait_).
+Proof. intros s b t. exact (subst_key_nodup s b t). Qed.
+Print Assumptions C10_no_duplicate_reexpression.
+
+(* ... in particular for every substitution the matcher reports *)
+Theorem C10_no_duplicate_of_reported : forall a b s bounded trait_,
+  sup a b = Some s -> NoDup (subst_key s bounded trait_).
+Proof.
+  intros a b s bd t H. apply subst_key_nodup. exact (proj1 (sup_wf a b s H)).
+Qed.
+Print Assumptions C10_no_duplicate_of_reported.
 
 (* F25: for (T => T, U => T) the bound `T: D` is re-expressed both as `T: D` and as `U: D` *)
 Example C10_identity_param_is_a_value :
